@@ -116,6 +116,9 @@ func runInto(t *testing.T, sc *Scenario, res *Result) {
 				horizon += tk.Start
 				for _, st := range tk.Steps {
 					horizon += st.Delay + st.StopAfter
+					if st.Kind == "call" && st.Client >= 0 && st.Client < len(sc.Clients) {
+						horizon += sc.Clients[st.Client].Timeout // every call may take its whole timeout
+					}
 				}
 			}
 			sim = vnet.New(vnet.Config{
